@@ -2818,6 +2818,202 @@ fn core_word_name(xs: &mut State) -> Xresult {
     xs.push_data(Cell::from(s))
 }
 
+// ---------------------------------------------------------------------------------------------
+// Verification hooks: read-only renderings of the interpreter state. Compiled only with
+// `--features verif_hooks`; nothing else in the crate refers to them.
+// ---------------------------------------------------------------------------------------------
+#[cfg(feature = "verif_hooks")]
+#[derive(Debug, Clone, PartialEq)]
+pub struct VerifFrame {
+    pub fn_addr: usize,
+    pub return_to: usize,
+    pub locals: Vec<Cell>,
+}
+
+#[cfg(feature = "verif_hooks")]
+#[derive(Debug, Clone, PartialEq)]
+pub struct VerifLoop {
+    pub items: Cell,
+    pub start: isize,
+    pub end: isize,
+}
+
+#[cfg(feature = "verif_hooks")]
+#[derive(Debug, Clone, PartialEq)]
+pub struct VerifDump {
+    pub ip: usize,
+    pub data_hidden: Vec<Cell>,
+    pub data_visible: Vec<Cell>,
+    pub frames: Vec<VerifFrame>,
+    pub loops: Vec<VerifLoop>,
+    pub special: Vec<usize>,
+    pub heap: Vec<Cell>,
+    pub mode: &'static str,
+    pub nested: usize,
+    pub marks: [usize; 7],
+    pub flows: usize,
+    pub pending_inputs: usize,
+    pub sources: usize,
+    pub dict_len: usize,
+    pub code_len: usize,
+    pub debug_map_len: usize,
+    pub insn_meter: usize,
+    pub reverse_log_len: Option<usize>,
+    pub about_to_stop: bool,
+}
+
+#[cfg(feature = "verif_hooks")]
+#[derive(Debug, Clone, PartialEq)]
+pub struct VerifOp {
+    pub kind: &'static str,
+    /// jump distance, local index, heap index, call address or integer literal
+    pub num: i128,
+    pub name: String,
+    pub cell: Option<Cell>,
+    /// index of the source the token belongs to and its byte range there
+    pub src: Option<usize>,
+    pub tok: (usize, usize),
+}
+
+#[cfg(feature = "verif_hooks")]
+impl State {
+    pub fn verif_dump(&self) -> VerifDump {
+        let ds_len = self.ctx.ds_len.min(self.data_stack.len());
+        VerifDump {
+            ip: self.ctx.ip,
+            data_hidden: self.data_stack[..ds_len].to_vec(),
+            data_visible: self.data_stack[ds_len..].to_vec(),
+            frames: self
+                .return_stack
+                .iter()
+                .map(|f| VerifFrame {
+                    fn_addr: f.fn_addr,
+                    return_to: f.return_to,
+                    locals: f.locals.iter().cloned().collect(),
+                })
+                .collect(),
+            loops: self
+                .loops
+                .iter()
+                .map(|l| VerifLoop {
+                    items: l.items.clone(),
+                    start: l.range.start,
+                    end: l.range.end,
+                })
+                .collect(),
+            special: self
+                .special
+                .iter()
+                .map(|s| match s {
+                    Special::VecStackStart(n) => *n,
+                })
+                .collect(),
+            heap: self.heap.clone(),
+            mode: match self.ctx.mode {
+                ContextMode::Compile => "compile",
+                ContextMode::Eval => "eval",
+                ContextMode::MetaEval => "meta",
+            },
+            nested: self.nested.len(),
+            marks: [
+                self.ctx.ds_len,
+                self.ctx.cs_len,
+                self.ctx.rs_len,
+                self.ctx.fs_len,
+                self.ctx.ls_len,
+                self.ctx.ss_ptr,
+                self.ctx.di_len,
+            ],
+            flows: self.flow_stack.len(),
+            pending_inputs: self.input.len(),
+            sources: self.sources.len(),
+            dict_len: self.dict.len(),
+            code_len: self.code.len(),
+            debug_map_len: self.debug_map.len(),
+            insn_meter: self.insn_meter,
+            reverse_log_len: self.reverse_log.as_ref().map(|l| l.len()),
+            about_to_stop: self.about_to_stop,
+        }
+    }
+
+    fn verif_native_name(&self, x: &XfnPtr) -> String {
+        if let Some(e) = self.dict.iter().rev().find(|e| match &e.entry {
+            Entry::Function { xf: Xfn::Native(f), .. } => f == x,
+            _ => false,
+        }) {
+            return e.name.to_string();
+        }
+        let helpers: [(XfnType, &str); 18] = [
+            (vec_builder_begin, "<vec-begin>"),
+            (vec_builder_end, "<vec-end>"),
+            (map_builder_begin, "<map-begin>"),
+            (map_builder_end, "<map-end>"),
+            (collect_tag_map, "<tags-end>"),
+            (foreach_init, "<foreach-init>"),
+            (foreach_next, "<foreach-next>"),
+            (let_map_begin, "<let-map-begin>"),
+            (let_map_end, "<let-map-end>"),
+            (let_map_lookup, "<let-map-lookup>"),
+            (let_vec_len, "<let-vec-len>"),
+            (let_vec_any_len, "<let-vec-any-len>"),
+            (let_vec_at, "<let-vec-at>"),
+            (let_vec_rest, "<let-vec-rest>"),
+            (update_fmt_base, "<fmt-base>"),
+            (update_fmt_prefix, "<fmt-prefix>"),
+            (update_fmt_tags, "<fmt-tags>"),
+            (update_fmt_upcase, "<fmt-upcase>"),
+        ];
+        for (f, name) in helpers.iter() {
+            if &XfnPtr(*f) == x {
+                return name.to_string();
+            }
+        }
+        String::from("<native>")
+    }
+
+    /// One entry per emitted opcode, parallel to the debug map.
+    pub fn verif_code(&self) -> Vec<VerifOp> {
+        let rel = |ip: usize, r: &RelativeJump| r.calculate(ip) as i128 - ip as i128;
+        self.code
+            .iter()
+            .enumerate()
+            .map(|(ip, op)| {
+                let (kind, num, name, cell): (&'static str, i128, String, Option<Cell>) = match op {
+                    Opcode::Nop => ("nop", 0, String::new(), None),
+                    Opcode::Call(a) => ("call", *a as i128, String::new(), None),
+                    Opcode::Resolve(n) => ("resolve", 0, n.to_string(), None),
+                    Opcode::NativeCall(x) => ("native", 0, self.verif_native_name(x), None),
+                    Opcode::Ret => ("ret", 0, String::new(), None),
+                    Opcode::JumpIf(r) => ("jumpif", rel(ip, r), String::new(), None),
+                    Opcode::JumpIfNot(r) => ("jumpifnot", rel(ip, r), String::new(), None),
+                    Opcode::Jump(r) => ("jump", rel(ip, r), String::new(), None),
+                    Opcode::Do(r) => ("do", rel(ip, r), String::new(), None),
+                    Opcode::Break(r) => ("break", rel(ip, r), String::new(), None),
+                    Opcode::Loop(r) => ("loop", rel(ip, r), String::new(), None),
+                    Opcode::CaseOf(r) => ("caseof", rel(ip, r), String::new(), None),
+                    Opcode::Load(a) => ("load", a.index() as i128, String::new(), None),
+                    Opcode::LoadNil => ("loadnil", 0, String::new(), None),
+                    Opcode::LoadI64(i) => ("loadi64", *i as i128, String::new(), None),
+                    Opcode::LoadF64(f) => ("loadf64", 0, String::new(), Some(Cell::Real(*f))),
+                    Opcode::LoadStr(s) => ("loadstr", 0, String::new(), Some(Cell::Str(s.clone()))),
+                    Opcode::LoadCell(c) => ("loadcell", 0, String::new(), Some(c.as_ref().clone())),
+                    Opcode::Store(a) => ("store", a.index() as i128, String::new(), None),
+                    Opcode::InitLocal(i) => ("initlocal", *i as i128, String::new(), None),
+                    Opcode::LoadLocal(i) => ("loadlocal", *i as i128, String::new(), None),
+                };
+                let (src, tok) = match self.debug_map.get(ip) {
+                    Some(t) => (
+                        self.sources.iter().position(|s| &s.1 == t.parent()),
+                        (t.range().start, t.range().end),
+                    ),
+                    None => (None, (0, 0)),
+                };
+                VerifOp { kind, num, name, cell, src, tok }
+            })
+            .collect()
+    }
+}
+
 #[cfg(test)]
 mod tests {
     use super::*;
